@@ -255,5 +255,4 @@ package main
 
 // the terminal is opened for reading and writing only: never created, never truncated
 //@ func withTerminal(f) (err)
-//@   nosafety
 //@   call os.OpenFile#0 requires (arg1 == 1 || arg1 == 2) && (arg0 == "CONIN$" || arg0 == "CONOUT$" || arg0 == "/dev/tty")          [C15]
